@@ -630,10 +630,20 @@ pub fn worker(case: &Value) -> Value {
 
 /// Breadth-first search over the model's canonical states (column residues of three devices);
 /// returns for every (state, event) transition the shortest history reaching the state plus the event.
-fn bfs_transitions(genr: &Gen, max_states: usize) -> (usize, Vec<Vec<usize>>) {
+/// Breadth-first search over the model's states, whole levels at a time: the search stops before a level whose
+/// expansion would take the number of expanded states beyond `max_expanded`, or when no new state appears
+/// (then the reachable state space — at most 14^3 residue vectors — is covered completely).
+struct Bfs {
+    discovered: usize,
+    expanded: usize,
+    levels: Vec<usize>,
+    complete: bool,
+    transitions: Vec<Vec<usize>>,
+}
+
+fn bfs_transitions(genr: &Gen, max_expanded: usize) -> Bfs {
     let e = genr.events();
     let mut seen: HashMap<[usize; 4], Vec<usize>> = HashMap::new();
-    let mut queue: VecDeque<Vec<usize>> = VecDeque::new();
     let state_of = |h: &[usize]| {
         let mut m = PModel::default();
         for ev in h {
@@ -642,21 +652,35 @@ fn bfs_transitions(genr: &Gen, max_states: usize) -> (usize, Vec<Vec<usize>>) {
         m.canon()
     };
     seen.insert(state_of(&[]), vec![]);
-    queue.push_back(vec![]);
-    let mut transitions = vec![];
-    while let Some(h) = queue.pop_front() {
-        for ev in 0..e {
-            let mut h2 = h.clone();
-            h2.push(ev);
-            transitions.push(h2.clone());
-            let s = state_of(&h2);
-            if !seen.contains_key(&s) && seen.len() < max_states {
-                seen.insert(s, h2.clone());
-                queue.push_back(h2);
+    let mut frontier: Vec<Vec<usize>> = vec![vec![]];
+    let mut r = Bfs { discovered: 1, expanded: 0, levels: vec![], complete: false, transitions: vec![] };
+    loop {
+        if frontier.is_empty() {
+            r.complete = true;
+            break;
+        }
+        if r.expanded + frontier.len() > max_expanded {
+            break;
+        }
+        r.levels.push(frontier.len());
+        let mut next = vec![];
+        for h in frontier {
+            r.expanded += 1;
+            for ev in 0..e {
+                let mut h2 = h.clone();
+                h2.push(ev);
+                r.transitions.push(h2.clone());
+                let s = state_of(&h2);
+                if !seen.contains_key(&s) {
+                    seen.insert(s, h2.clone());
+                    next.push(h2);
+                }
             }
         }
+        frontier = next;
     }
-    (seen.len(), transitions)
+    r.discovered = seen.len();
+    r
 }
 
 pub fn drive(tier: &str) -> i32 {
@@ -679,8 +703,11 @@ pub fn drive(tier: &str) -> i32 {
         plan.push(json!({"group": g, "cases": t}));
     }
     // explicit-state search on the model, every transition replayed
-    let (states, transitions) = bfs_transitions(&genr, if quick { 60 } else { 100_000 });
-    plan.push(json!({"group": "bfs", "model_states": states, "transitions": transitions.len()}));
+    let b = bfs_transitions(&genr, if quick { 250 } else { 100_000 });
+    let (states, transitions) = (b.discovered, b.transitions);
+    let (bfs_expanded, bfs_levels, bfs_complete) = (b.expanded, b.levels, b.complete);
+    plan.push(json!({"group": "bfs", "model_states_discovered": states, "model_states_expanded": bfs_expanded, "states_per_level": bfs_levels,
+        "reachable_state_space_covered_completely": bfs_complete, "transitions": transitions.len()}));
     for chunk in transitions.chunks(200) {
         cases.push(json!({"g": "bfs", "quick": quick, "items": chunk}));
     }
@@ -693,11 +720,14 @@ pub fn drive(tier: &str) -> i32 {
         run.capped = true;
     }
     let mut ev = Evidence::new("model_checking");
-    ev.set("rule", "single: every PRINT list of up to 3 (thorough 4) tokens over the value menu (numbers of every type and sign, strings incl. empty, of 13/14/15 characters and with embedded CR, LF, CR LF) and the two separators, no two values adjacent, on screen / LPT1 / file #1 starting at columns 0, 2, 13, 14, 15, 27. hist: the full tree of histories of depth <= 2 (thorough 3) over 32 statement forms x 3 devices. bfs: breadth-first search over the model's states (column residue mod 14 of each device), every (state, event) transition replayed on the implementation after the shortest history reaching the state. using: every format string up to length 3 (thorough 5) over {# . , \\ blank ! x} x value lists (1-3 values, format reuse) x trailing semicolon. uhist: the full tree of histories of depth <= 2 (thorough 3) over 5 PRINT USING statements (formats that are left in the middle, several values, literal tails) and 2 plain ones x trailing semicolon x 3 devices. nested: a PRINT / PRINT USING list on each device whose first, middle or last item calls a FUNCTION that itself PRINTs to each device (ending with nothing, semicolon, comma). After every case each device's hidden column is exposed by `, \"|\"`. Oracle: exact bytes of stdout, LPT1 and both files against the column model. wide: strings of 27 .. 1000 characters (every length within one of 28, 42, 70, 80, 256) in four statement forms (string then comma, the comma in the next statement, between two numbers, twice and a trailing comma) on screen, LPT1 and a file: the comma pads to the next multiple of 14 whatever the width. forms: the format of PRINT USING held by a STRING * n variable and by a STRING * n field of a record (6 formats x 3 devices); a PRINT that ends in a separator, or a bare PRINT, as the THEN part of a single-line IF with an ELSE part (6 pairs x both branches x 3 devices).");
+    ev.set("rule", "single: every PRINT list of up to 3 (thorough 4) tokens over the value menu (numbers of every type and sign, strings incl. empty, of 13/14/15 characters and with embedded CR, LF, CR LF) and the two separators, no two values adjacent, on screen / LPT1 / file #1 starting at columns 0, 2, 13, 14, 15, 27. hist: the full tree of histories of depth <= 2 (thorough 3) over 32 statement forms x 3 devices. bfs: breadth-first search over the model's states (column residue mod 14 of each device; at most 14^3), whole levels at a time (quick: as many whole levels as fit in 250 expanded states; thorough: until no new state appears), every (state, event) transition replayed on the implementation after the shortest history reaching the state. using: every format string up to length 3 (thorough 5) over {# . , \\ blank ! x} x value lists (1-3 values, format reuse) x trailing semicolon. uhist: the full tree of histories of depth <= 2 (thorough 3) over 5 PRINT USING statements (formats that are left in the middle, several values, literal tails) and 2 plain ones x trailing semicolon x 3 devices. nested: a PRINT / PRINT USING list on each device whose first, middle or last item calls a FUNCTION that itself PRINTs to each device (ending with nothing, semicolon, comma). After every case each device's hidden column is exposed by `, \"|\"`. Oracle: exact bytes of stdout, LPT1 and both files against the column model. wide: strings of 27 .. 1000 characters (every length within one of 28, 42, 70, 80, 256) in four statement forms (string then comma, the comma in the next statement, between two numbers, twice and a trailing comma) on screen, LPT1 and a file: the comma pads to the next multiple of 14 whatever the width. forms: the format of PRINT USING held by a STRING * n variable and by a STRING * n field of a record (6 formats x 3 devices); a PRINT that ends in a separator, or a bare PRINT, as the THEN part of a single-line IF with an ELSE part (6 pairs x both branches x 3 devices).");
     ev.set("exhaustive", !run.capped);
     ev.set("plan", json!(plan));
     ev.set("states", states as u64);
     ev.set("transitions", transitions.len() as u64);
+    ev.set("states_expanded", bfs_expanded as u64);
+    ev.set("bfs_levels_fully_expanded", bfs_levels.len() as u64);
+    ev.set("bfs_reachable_state_space_covered_completely", bfs_complete);
     ev.set("traces_validated_against_impl", run.evaluations);
     ev.set("distinct_nontrivial", run.nontrivial);
     ev.assume("the line width (80 columns on the screen) is not modelled: the property text states no wrapping rule");
